@@ -343,6 +343,20 @@ func checkSharedHandlers(c *core.Ctx, handlers []handlerRef) {
 		ok := len(ws) == 1
 		st.Ob(ok)
 		st.Sample("%s serves %v", k, sortedKeys(ms))
+		// the legacy forms follow DX9 arithmetic (0.0 * x = 0.0 also for infinite and NaN x, log(0) ...): not the IEEE handler
+		legacy, plain := "", ""
+		for n := range ms {
+			if strings.Contains(n, "_legacy") {
+				legacy = n
+			} else {
+				plain = n
+			}
+		}
+		st.Instances++
+		st.Ob(legacy == "" || plain == "")
+		if legacy != "" && plain != "" {
+			c.Report(core.Finding{Rule: "R03.25", Pkg: emuPkg, Func: k, Detail: "shared-handler-legacy:" + strings.Join(sortedKeys(ms), "+"), Msg: fmt.Sprintf("%s is dispatched for both %s and %s: the legacy instruction follows DX9 rules (0.0 * x = 0.0 even for an infinite or NaN x), so it cannot share the IEEE handler: v_mul_legacy_f32(0, Inf) gives NaN instead of 0", k, plain, legacy)})
+		}
 		if !ok {
 			c.Report(core.Finding{Rule: "R03.25", Pkg: emuPkg, Func: k, Detail: "shared-handler-widths:" + strings.Join(sortedKeys(ms), "+"), Msg: fmt.Sprintf("%s is dispatched for %v, whose operand widths differ (%v): the narrower instruction is computed with the wider one's operand reads and condition codes", k, sortedKeys(ms), ms)})
 		}
